@@ -3,7 +3,7 @@ import report
 from sym import Explorer, explore, show, subterms, lin
 from pat import called, canon, is_call, deref_all, agg_variant, const_of, strip_casts
 from mir import natural_loops, callee_name
-from rules import editing, ordering, walkers, intarith, recursion, buffers, dispatch
+from rules import editing, ordering, walkers, intarith, recursion, buffers, dispatch, numcodec
 from rules.layout import cv
 
 CONE = ['functions::convert_to_comparable', 'functions::scalar_convert_to_comparable', 'functions::array_convert_to_comparable', 'functions::object_convert_to_comparable']
@@ -16,12 +16,12 @@ EXPLANATION = (
     "overflows). R14.5: the order-preserving image of the f64 bits is structurally v = s ^ (((s >> 63) as u64) >> 1), b[0] ^= 0x80 on the big-endian bytes. "
     "R14.6: every element (scalars, keys, values, nested containers) is emitted through scalar_convert_to_comparable, so each carries its depth and rank "
     "bytes; the array/object helpers append nothing themselves. R14.7: walker discipline of the helpers. R14.8: the argument is dispatched on its "
-    "representation (R11.1). NOT decided: the order embedding itself.")
+    "representation (R11.1). R14.9: the order compare puts on numbers is the order of their values (R18.4: exact mixed comparisons), which is what the float image of the key follows. NOT decided: the order embedding itself.")
 
 
 def check(ctx, run):
     f = ctx.facts
-    run.rules_run = ['R14.1', 'R14.2', 'R14.3', 'R14.4', 'R14.5', 'R14.6', 'R14.7', 'R14.8']
+    run.rules_run = ['R14.1', 'R14.2', 'R14.3', 'R14.4', 'R14.5', 'R14.6', 'R14.7', 'R14.8', 'R14.9']
     g = lambda n: cv(f, n)
     b = f.bodies.get(CONE[1])
     if b is None:
@@ -138,4 +138,5 @@ def check(ctx, run):
     walkers.w_advance(ctx, run, 'R14.7/R05.2', only=only, floor=2)
     dispatch.r11_1(ctx, run, rule='R14.8/R11.1', only={'functions::convert_to_comparable'})
     ordering.r04_1(ctx, run, rule='R14.2/R04.1')
+    numcodec.r18_4(ctx, run, rule='R14.9/R18.4')
     return report.finish(run, level='other', explanation=EXPLANATION, assumptions=["A1: valid documents"])
